@@ -77,6 +77,19 @@ def handle (line : String) : String :=
     let o := parseOp opS
     let i := parseOp implS
     if o.cmd != "rk" then "bad-op" else
+    if o.str "closekex" == "1" then
+      -- Close() while a key exchange is open and writers are parked on the full queue:
+      -- Close returns, every parked writer is released with an error, nothing of the application follows our KEXINIT
+      match parseList parseItem (i.str "cwire") with
+      | some cwire =>
+        if i.str "st" != "closed" then s!"close-during-kex scenario: {i.str "st"}"
+        else if i.str "closeret" != "1" then "Close() did not return while the key exchange was open"
+        else if i.str "released" != "1" then "parked writers were not released by Close()"
+        else if i.str "wok" != "0" then "writePacket succeeded after Close()"
+        else if !wireOK cwire || i.str "fk" != "0" then "application packets on the wire after the KEXINIT of the aborted key exchange"
+        else "ok"
+      | none => "bad-impl"
+    else
     if o.str "failkex" == "1" then
       -- a re-key that fails (host key rejected): nothing of the application may follow our KEXINIT
       match parseList parseItem (i.str "cwire") with
@@ -97,10 +110,11 @@ def handle (line : String) : String :=
       else if i.str "cerr" != "0" || i.str "serr" != "0" then "a writePacket call failed"
       else if csub.length != cw || ssub.length != sw then "bad-impl"
       else
-        match judgeSide "client" cwire ((o.nat? "thr").getD 0) csub srecv n maxp with
+        -- with close=1 the client side is closed while its key exchange is open: see below
+        match judgeSide "client" cwire (effectiveThreshold ((o.nat? "thr").getD 0) (o.str "cipher")) csub srecv n maxp with
         | some e => e
         | none =>
-          match judgeSide "server" swire ((o.nat? "sthr").getD 0) ssub crecv n maxps with
+          match judgeSide "server" swire (effectiveThreshold ((o.nat? "sthr").getD 0) (o.str "cipher")) ssub crecv n maxps with
           | some e => e
           | none => "ok"
     | _, _, _, _, _, _, _, _, _, _, _ => "bad-op"
